@@ -6,7 +6,7 @@ Local Open Scope string_scope.
 
 (** a column of a CREATE TABLE statement of the real script *)
 Record schema_col := { sc_name : string; sc_serial : bool; sc_notnull : bool; sc_default : bool }.
-Record schema_tbl := { st_name : string; st_cols : list schema_col }.
+Record schema_tbl := { st_name : string; st_cols : list schema_col; st_uniques : list (list string) (* UNIQUE / PRIMARY KEY groups of the script *) }.
 
 Record c5_case := {
   c5_prog : prog; c5_enums : list enum; c5_ana : ana_obs;
@@ -102,7 +102,7 @@ Definition scan_target (c : c5_case) (scan : string) : option (list string) :=
 
 Inductive defect :=
 | DNoTable | DUnknownColumn | DPlaceholders | DArgsNotAligned | DScanNotAligned | DColumnWithoutValue
-| DEmptyColumnList | DEmptyWhere | DSingleColumnRow | DDuplicateColumn.
+| DEmptyColumnList | DEmptyWhere | DSingleColumnRow | DDuplicateColumn | DSingleRowWithoutUnique.
 
 Fixpoint nodup_ci (l : list string) : bool :=
   match l with [] => true | x :: r => negb (mem_ci x r) && nodup_ci r end.
@@ -129,6 +129,16 @@ Definition stmt_defects (c : c5_case) (f : gfun) : list defect :=
           | _ => [] end)
       ++ (match s with SUpdate _ [_] _ _ _ _ => [DSingleColumnRow] | _ => [] end)
       ++ (match s with SDelete _ [] _ => [DEmptyWhere] | _ => [] end)
+      ++ (* a function scanning one row (QueryRow) selects or deletes by columns the schema declares unique *)
+         (match (match s with SSelect _ _ w | SDelete _ w _ => w | _ => [] end) with
+          | [] => []
+          | w =>
+              if existsb (fun sc => String.eqb ("Scan" ++ fst sc) (gf_scan f)) (c5_scans c)
+              then (if existsb (fun u => forallb (fun x => mem_ci x (map cond_col w)) u)
+                               (st_uniques tb ++ map (fun col => [sc_name col]) (filter sc_serial (st_cols tb)))
+                    then [] else [DSingleRowWithoutUnique])
+              else []
+          end)
       ++ (match stmt_result s, gf_scan f with
           | [], "" => []
           | r, scan => match scan_target c scan with
